@@ -7,7 +7,7 @@
 From Coq Require Import List Arith NArith Bool Lia Sorted Permutation.
 From V.C14 Require Model Proofs.
 From V.C17 Require Model Proofs.
-From V.C16 Require Import Model Proofs Obl Compose.
+From V.C16 Require Import Model Proofs Obl Bound Compose.
 Import ListNotations.
 Open Scope N_scope.
 
@@ -64,25 +64,31 @@ Proof.
   rewrite B1 in I1, I2. split; [exact I1 | rewrite B2, I2; reflexivity].
 Qed.
 
-(* the ids the user starts *)
+(* the ids the user starts; a refresh timer that fires starts an operation (with an id from the shared
+   counter) only when a refresh is due: `started_by` of the elaborated event decides *)
 Definition ustarted_by (u : uev) : option N :=
   match u with
-  | UCmd q _ _ | UPutToPeers q _ _ _ => Some q
+  | UCmd q _ _ | UPutToPeers q _ _ _ | UFire q _ _ => Some q
   | UEv e => started_by e
   | _ => None
   end.
 Definition ustarted (q : N) (us : list uev) : nat :=
   length (filter (fun u => opt_is (ustarted_by u) q) us).
 
-Lemma elab_started : forall wc w u, started_by (fst (fst (elab wc w u))) = ustarted_by u.
+Lemma elab_started : forall wc w u,
+  started_by (fst (fst (elab wc w u))) = ustarted_by u \/
+  (started_by (fst (fst (elab wc w u))) = None /\ exists q rk t, u = UFire q rk t /\ fire_due w rk = None).
 Proof.
-  intros wc w u. destruct u as [q c target | q qr rk given | rk | p a | e]; cbn [elab ustarted_by].
-  - destruct c; cbn [fst started_by]; try reflexivity.
+  intros wc w u. destruct u as [q c target | q qr rk given | rk | p a | rk | q rk target | id rq | e]; cbn [elab ustarted_by].
+  - left. destruct c; cbn [fst started_by]; try reflexivity.
     destruct (V.C17.Model.get (w_store w) rk 0) as [st' r]. reflexivity.
-  - destruct (rt_filter wc (w_rt w) given) as [t' ps]. reflexivity.
-  - reflexivity.
-  - reflexivity.
-  - destruct (side wc w e) as [t' s']. reflexivity.
+  - left. destruct (rt_filter wc (w_rt w) given) as [t' ps]. reflexivity.
+  - left. reflexivity.
+  - left. reflexivity.
+  - left. reflexivity.
+  - destruct (fire_due w rk) eqn:E; [left; reflexivity |]. right. split; [reflexivity |]. eauto.
+  - left. destruct (side_k wc w (EFut id (RRead (msg_of_req rq))) (req_key rq)) as [t' s']. reflexivity.
+  - left. destruct (side wc w e) as [t' s']. reflexivity.
 Qed.
 
 Fixpoint ufresh (seen : list N) (us : list uev) : Prop :=
@@ -94,20 +100,39 @@ Fixpoint ufresh (seen : list N) (us : list uev) : Prop :=
               end
   end.
 
+Lemma fresh_ids_weaken : forall es seen seen',
+  (forall x, In x seen' -> In x seen) -> fresh_ids seen es -> fresh_ids seen' es.
+Proof.
+  intros es. induction es as [| e t IH]; intros seen seen' Hi H; [exact I |]. cbn [fresh_ids] in *.
+  destruct (started_by e) as [q |].
+  - destruct H as [H1 H2]. split; [intro K; apply H1; apply Hi; exact K |].
+    apply (IH (q :: seen)); [| exact H2]. intros x [Hx | Hx]; [left; exact Hx | right; apply Hi; exact Hx].
+  - apply (IH seen); assumption.
+Qed.
+
 Lemma elabs_fresh : forall wc us w seen, ufresh seen us -> fresh_ids seen (elabs wc w us).
 Proof.
   intros wc us. induction us as [| u t IH]; intros w seen H; [exact I |].
-  cbn [elabs fresh_ids ufresh] in *. rewrite elab_started. destruct (ustarted_by u).
-  - destruct H as [H1 H2]. split; [exact H1 | apply IH; exact H2].
-  - apply IH. exact H.
+  cbn [elabs fresh_ids ufresh] in *.
+  destruct (elab_started wc w u) as [E | (E & q & rk & tg & Eu & _)]; rewrite E.
+  - destruct (ustarted_by u).
+    + destruct H as [H1 H2]. split; [exact H1 | apply IH; exact H2].
+    + apply IH. exact H.
+  - subst u. cbn [ustarted_by] in H. destruct H as [_ H2].
+    apply (fresh_ids_weaken _ (q :: seen)); [intros x Hx; right; exact Hx | apply IH; exact H2].
 Qed.
 
-Lemma elabs_started : forall wc q us w, started q (elabs wc w us) = ustarted q us.
+Lemma elabs_started : forall wc q us w, (started q (elabs wc w us) <= ustarted q us)%nat.
 Proof.
-  intros wc q us. induction us as [| u t IH]; intro w; [reflexivity |].
-  cbn [elabs]. unfold started, ustarted in *. cbn [filter]. rewrite elab_started.
-  destruct (opt_is (ustarted_by u) q); cbn [length]; rewrite IH; reflexivity.
+  intros wc q us. induction us as [| u t IH]; intro w; [cbn; lia |].
+  cbn [elabs]. unfold started, ustarted in *. cbn [filter]. specialize (IH (fst (fst (cstep wc w u)))).
+  destruct (elab_started wc w u) as [E | (E & _)]; rewrite E.
+  - destruct (opt_is (ustarted_by u) q); cbn [length]; lia.
+  - cbn [opt_is]. destruct (opt_is (ustarted_by u) q); cbn [length]; lia.
 Qed.
+
+(* what the composed run starts: commands, put_record_to_peers, and the refreshes that are due *)
+Definition cstarted (wc : wcfg) (w : world) (q : N) (us : list uev) : nat := started q (elabs wc w us).
 
 (* ------------------------------------------------------------------ the peers' keys *)
 
@@ -224,23 +249,7 @@ Proof.
 Qed.
 
 Lemma rt_disconnect_inv : forall wc t p, keys_ok wc -> TInv wc t -> TInv wc (rt_disconnect wc t p).
-Proof.
-  intros wc t p Hk HI. unfold rt_disconnect.
-  destruct (R.ilog2 (R.kxor (lkey wc) (pkey wc p))) as [i |] eqn:Ei; [| exact HI].
-  assert (Hlen : length (pkey wc p) = length (lkey wc)).
-  { destruct (pkey_len wc p Hk) as [H | H]; [| exact H]. rewrite H, ilog2_nil in Ei. discriminate. }
-  assert (Hlt : (i < length t)%nat).
-  { destruct HI as [HL _]. apply RP.ilog2_lt in Ei. rewrite RP.kxor_length in Ei. lia. }
-  pose proof (RP.apply_slot_binv (lkey wc) (wc_K wc) i (nth i t []) (R.OEntry (pkey wc p))
-                (RP.inv_nth _ _ _ i HI) Hlen Ei) as E0.
-  cbn [R.op_key R.apply_slot] in E0.
-  destruct (R.bucket_entry (wc_K wc) (nth i t []) (pkey wc p)) as [| | a y c | a y c] eqn:Es;
-    try (apply upd_inv; [exact HI | exact Hlt | exact E0]).
-  apply upd_inv; [exact HI | exact Hlt |]. cbn [R.slot_bucket] in E0.
-  apply (RP.binv_same_key (lkey wc) (wc_K wc) i a y _ c E0); [reflexivity |].
-  apply entry_occ in Es. destruct Es as [_ Hy]. unfold RP.real. rewrite Hy.
-  destruct (pkey wc p); [cbn in Hlen; pose proof (ko_pos wc Hk); lia | reflexivity].
-Qed.
+Proof. intros wc t p Hk HI. unfold rt_disconnect. eapply rt_op_inv; [exact Hk | reflexivity | exact HI]. Qed.
 
 Lemma rt_filter1_table : forall wc t p, fst (rt_filter1 wc t p) = rt_op wc t (R.OEntry (pkey wc p)).
 Proof.
@@ -264,9 +273,9 @@ Proof.
   eapply rt_op_inv; [exact Hk | reflexivity | exact HI].
 Qed.
 
-Lemma side_inv : forall wc w e, keys_ok wc -> TInv wc (w_rt w) -> TInv wc (fst (side wc w e)).
+Lemma side_k_inv : forall wc w e ik, keys_ok wc -> TInv wc (w_rt w) -> TInv wc (fst (side_k wc w e ik)).
 Proof.
-  intros wc w e Hk HI. unfold side.
+  intros wc w e ik Hk HI. unfold side_k.
   set (t0 := match disconnects (w_st w) e with Some p => rt_disconnect wc (w_rt w) p | None => w_rt w end).
   assert (H0 : TInv wc t0).
   { subst t0. destruct (disconnects (w_st w) e); [apply rt_disconnect_inv; assumption | exact HI]. }
@@ -279,17 +288,25 @@ Proof.
     destruct (find_fut id (futs (w_st w))) as [f |]; [| exact H0].
     destruct (res_ok (f_kind f) (RRead m)); [| exact H0].
     destruct (f_q f).
-    + cbn [fst]. destruct (msg_peers (trunc_msg (wc_g wc) m)); [apply rt_learn_inv; assumption | exact H0].
+    + cbn [fst]. destruct (msg_peers (trunc_msg (wc_g wc) m)); [| exact H0].
+      destruct (wc_auto wc); [apply rt_learn_inv; assumption | exact H0].
     + destruct (trunc_msg (wc_g wc) m); exact H0.
 Qed.
 
+Lemma side_inv : forall wc w e, keys_ok wc -> TInv wc (w_rt w) -> TInv wc (fst (side wc w e)).
+Proof. intros. apply side_k_inv; assumption. Qed.
+
 Lemma elab_inv : forall wc w u, keys_ok wc -> TInv wc (w_rt w) -> TInv wc (snd (fst (elab wc w u))).
 Proof.
-  intros wc w u Hk HI. destruct u as [q c target | q qr rk given | rk | p a | e]; cbn [elab].
+  intros wc w u Hk HI. destruct u as [q c target | q qr rk given | rk | p a | rk | q rk target | id rq | e]; cbn [elab].
   - destruct c; cbn [fst snd]; try exact HI. destruct (V.C17.Model.get (w_store w) rk 0). exact HI.
   - pose proof (rt_filter_inv wc given (w_rt w) Hk HI) as F. destruct (rt_filter wc (w_rt w) given). exact F.
   - exact HI.
   - cbn [fst snd]. eapply rt_op_inv; [exact Hk | reflexivity | exact HI].
+  - exact HI.
+  - destruct (fire_due w rk); exact HI.
+  - pose proof (side_k_inv wc w (EFut id (RRead (msg_of_req rq))) (req_key rq) Hk HI) as F.
+    destruct (side_k wc w (EFut id (RRead (msg_of_req rq))) (req_key rq)). exact F.
   - pose proof (side_inv wc w e Hk HI) as F. destruct (side wc w e). exact F.
 Qed.
 
@@ -305,6 +322,229 @@ Qed.
 Lemma table_inv : forall wc m us,
   keys_ok wc -> TInv wc (w_rt (fst (crun wc (w0 wc m (length (lkey wc))) us))).
 Proof. intros. apply crun_inv; [assumption |]. apply RP.empty_inv. Qed.
+
+(* ------------------------------------------------------------------ who puts peers into the table *)
+
+(* only add_known_peer writes a new key into a bucket; every other table operation of the event loop
+   rewrites an existing node in place, or pushes the key-less placeholder of a vacant entry() *)
+Definition is_add (o : R.op) : bool :=
+  match o with R.OAdd _ true _ | R.OInsert _ _ _ => true | _ => false end.
+
+Definition is_add_any (o : R.op) : bool :=
+  match o with R.OAdd _ _ _ | R.OInsert _ _ _ => true | _ => false end.
+
+Definition has_node_key (t : table) (k : key) : Prop := exists n, In n (concat t) /\ R.n_key n = k.
+
+Lemma in_concat_upd : forall (t : table) i b' n,
+  In n (concat (R.upd_nth i b' t)) -> In n b' \/ In n (concat t).
+Proof.
+  intros t. induction t as [| b r IH]; intros i b' n H; [destruct i; destruct H |].
+  destruct i as [| j]; cbn [R.upd_nth concat] in *; apply in_app_or in H; destruct H as [H | H].
+  - left. exact H.
+  - right. apply in_or_app. right. exact H.
+  - right. apply in_or_app. left. exact H.
+  - destruct (IH j b' n H) as [H1 | H1]; [left; exact H1 | right; apply in_or_app; right; exact H1].
+Qed.
+
+Lemma in_nth_concat : forall (t : table) i n, In n (nth i t []) -> In n (concat t).
+Proof.
+  intros t. induction t as [| b r IH]; intros i n H; [destruct i; destruct H |].
+  destruct i as [| j]; cbn [nth concat] in *; apply in_or_app; [left; exact H | right; eapply IH; exact H].
+Qed.
+
+Lemma entry_vac : forall K b k a y c,
+  R.bucket_entry K b k = R.SVac a y c ->
+  (a = b /\ y = R.placeholder /\ c = []) \/ b = a ++ y :: c.
+Proof.
+  intros K b k a y c Es. unfold R.bucket_entry in Es.
+  destruct (R.split_first (R.has_key k) b) as [[[a0 y0] c0] |]; [discriminate |].
+  destruct (length b <? K)%nat.
+  - inversion Es. subst. left. repeat split.
+  - destruct (R.split_first R.replaceable b) as [[[a0 y0] c0] |] eqn:E2; [| discriminate].
+    inversion Es. subst. right. apply RP.split_first_some in E2. apply E2.
+Qed.
+
+Lemma apply_slot_keys : forall K b o n,
+  In n (R.apply_slot o b (R.bucket_entry K b (R.op_key o))) -> R.n_key n <> [] ->
+  (exists n', In n' b /\ R.n_key n' = R.n_key n) \/ (is_add_any o = true /\ R.n_key n = R.op_key o).
+Proof.
+  intros K b o n Hin Hr.
+  destruct (R.bucket_entry K b (R.op_key o)) as [| | a y c | a y c] eqn:Es.
+  - left. exists n. split; [| reflexivity]. destruct o as [| | ? [|] ? | | |]; exact Hin.
+  - left. exists n. split; [| reflexivity]. destruct o as [| | ? [|] ? | | |]; exact Hin.
+  - (* occupied: the node keeps its key *)
+    pose proof (entry_occ _ _ _ _ _ _ Es) as [Hb Hy].
+    assert (G : forall y', R.n_key y' = R.n_key y -> In n (a ++ y' :: c) ->
+                exists n', In n' b /\ R.n_key n' = R.n_key n).
+    { intros y' Ey H. rewrite Hb. apply in_app_or in H. destruct H as [H | [H | H]].
+      - exists n. split; [apply in_or_app; left; exact H | reflexivity].
+      - subst n. exists y. split; [apply in_or_app; right; left; reflexivity | symmetry; exact Ey].
+      - exists n. split; [apply in_or_app; right; right; exact H | reflexivity]. }
+    left. unfold R.apply_slot, R.apply_slot_gen in Hin.
+    destruct o as [k0 | k0 a0 c0 | k0 [|] c0 | k0 d0 | k0 ne0 | k0]; cbn [R.slot_bucket] in Hin;
+      (eapply G; [| exact Hin]; reflexivity).
+  - (* vacant *)
+    assert (G : In n (a ++ y :: c) -> exists n', In n' b /\ R.n_key n' = R.n_key n).
+    { intro H. destruct (entry_vac _ _ _ _ _ _ Es) as [(-> & -> & ->) | Hb].
+      - apply in_app_or in H. destruct H as [H | [H | []]]; [exists n; split; [exact H | reflexivity] |].
+        subst n. cbn in Hr. congruence.
+      - exists n. split; [rewrite Hb; exact H | reflexivity]. }
+    assert (G2 : forall y', R.n_key y' = R.op_key o -> In n (a ++ y' :: c) ->
+                 (exists n', In n' b /\ R.n_key n' = R.n_key n) \/ R.n_key n = R.op_key o).
+    { intros y' Ey H. apply in_app_or in H. destruct H as [H | [H | H]].
+      - left. apply G. apply in_or_app. left. exact H.
+      - right. subst n. exact Ey.
+      - left. apply G. apply in_or_app. right. right. exact H. }
+    unfold R.apply_slot, R.apply_slot_gen in Hin.
+    destruct o as [k0 | k0 a0 c0 | k0 a0 c0 | k0 d0 | k0 ne0 | k0]; cbn [R.slot_bucket R.op_key is_add_any] in *;
+      try (left; apply G; exact Hin).
+    + destruct (G2 (R.mkNode k0 a0 c0) eq_refl Hin) as [H | H]; [left; exact H | right; split; [reflexivity | exact H]].
+    + destruct (G2 (R.mkNode k0 true c0) eq_refl Hin) as [H | H]; [left; exact H | right; split; [reflexivity | exact H]].
+Qed.
+
+Lemma rt_op_keys : forall wc t o n,
+  In n (concat (rt_op wc t o)) -> R.n_key n <> [] ->
+  has_node_key t (R.n_key n) \/ (is_add o = true /\ R.n_key n = R.op_key o).
+Proof.
+  intros wc t o n Hin Hr.
+  assert (Same : In n (concat t) -> has_node_key t (R.n_key n)) by (intro H; exists n; split; [exact H | reflexivity]).
+  destruct (is_add o) eqn:Ea.
+  2: assert (Hno : is_add_any o = false \/ rt_op wc t o = t).
+  2: { destruct o as [| | k0 [|] c0 | | |]; try (left; reflexivity); [discriminate Ea | discriminate Ea | right; reflexivity]. }
+  2: destruct Hno as [Hno | Hno]; [| rewrite Hno in Hin; left; apply Same; exact Hin].
+  all: unfold rt_op in Hin;
+    destruct (RP.step_cases (lkey wc) (wc_K wc) t o) as [E | (i & _ & E)]; rewrite E in Hin;
+    [left; apply Same; exact Hin |];
+    apply in_concat_upd in Hin; destruct Hin as [Hin | Hin]; [| left; apply Same; exact Hin];
+    destruct (apply_slot_keys _ _ _ _ Hin Hr) as [(n' & H1 & H2) | [H3 H4]];
+    [left; exists n'; split; [eapply in_nth_concat; exact H1 | exact H2] |].
+  - right. split; [reflexivity | exact H4].
+  - congruence.
+Qed.
+
+Lemma rt_op_keys_noadd : forall wc t o k,
+  is_add o = false -> k <> [] -> has_node_key (rt_op wc t o) k -> has_node_key t k.
+Proof.
+  intros wc t o k Ha Hk (n & Hin & En). subst k.
+  destruct (rt_op_keys wc t o n Hin Hk) as [H | [H _]]; [exact H | congruence].
+Qed.
+
+Lemma rt_filter_keys : forall wc ps t k,
+  k <> [] -> has_node_key (fst (rt_filter wc t ps)) k -> has_node_key t k.
+Proof.
+  intros wc ps. induction ps as [| p r IH]; intros t k Hk H; [exact H |]. cbn [rt_filter] in H.
+  destruct (p =? g_local (wc_g wc)); [apply IH; assumption |].
+  pose proof (rt_filter1_table wc t p) as E. destruct (rt_filter1 wc t p) as [t1 o]. cbn [fst] in E.
+  specialize (IH t1 k Hk). destruct (rt_filter wc t1 r) as [t2 l]. cbn [fst] in *.
+  specialize (IH H). rewrite E in IH. eapply rt_op_keys_noadd; [| exact Hk | exact IH]. reflexivity.
+Qed.
+
+(* RoutingTableUpdateMode::Manual: an event of the loop never brings a new peer into the table *)
+Lemma side_keys_manual : forall wc w e ik k,
+  wc_auto wc = false -> k <> [] -> has_node_key (fst (side_k wc w e ik)) k -> has_node_key (w_rt w) k.
+Proof.
+  intros wc w e ik k Hm Hk. unfold side_k.
+  set (t0 := match disconnects (w_st w) e with Some p => rt_disconnect wc (w_rt w) p | None => w_rt w end).
+  assert (H0 : has_node_key t0 k -> has_node_key (w_rt w) k).
+  { subst t0. destruct (disconnects (w_st w) e); [| tauto]. unfold rt_disconnect.
+    apply rt_op_keys_noadd; [reflexivity | exact Hk]. }
+  clearbody t0.
+  destruct e; cbn [fst]; try exact H0.
+  - destruct (aget p (conn (w_st w))); cbn [fst]; [exact H0 |].
+    intro H. apply H0. eapply rt_op_keys_noadd; [| exact Hk | exact H]. reflexivity.
+  - intro H. apply H0. eapply rt_op_keys_noadd; [| exact Hk | exact H]. reflexivity.
+  - destruct r as [| | | m |]; cbn [fst]; try exact H0.
+    destruct (find_fut id (futs (w_st w))) as [f |]; [| exact H0].
+    destruct (res_ok (f_kind f) (RRead m)); [| exact H0].
+    destruct (f_q f).
+    + cbn [fst]. rewrite Hm. destruct (msg_peers (trunc_msg (wc_g wc) m)); exact H0.
+    + destruct (trunc_msg (wc_g wc) m); exact H0.
+Qed.
+
+Lemma cstep_keys_manual : forall wc w u k,
+  wc_auto wc = false -> k <> [] -> has_node_key (w_rt (fst (fst (cstep wc w u)))) k ->
+  has_node_key (w_rt w) k \/ exists p, u = UAddKnownPeer p true /\ k = pkey wc p.
+Proof.
+  intros wc w u k Hm Hk. rewrite cstep_rt.
+  destruct u as [q c target | q qr rk given | rk | p a | rk | q rk target | id rq | e]; cbn [elab].
+  - left. destruct c; cbn [fst snd] in *; try assumption. destruct (V.C17.Model.get (w_store w) rk 0). assumption.
+  - intro H. left. pose proof (rt_filter_keys wc given (w_rt w) k Hk) as F.
+    destruct (rt_filter wc (w_rt w) given). apply F. exact H.
+  - left. assumption.
+  - cbn [fst snd]. intros (n & Hin & En). subst k.
+    destruct (rt_op_keys wc (w_rt w) _ n Hin Hk) as [H | [Ha Ek]]; [left; exact H |].
+    right. exists p. destruct a; [split; [reflexivity | exact Ek] | discriminate Ha].
+  - left. assumption.
+  - left. destruct (fire_due w rk); assumption.
+  - intro H. left. pose proof (side_keys_manual wc w (EFut id (RRead (msg_of_req rq))) (req_key rq) k Hm Hk) as F.
+    destruct (side_k wc w (EFut id (RRead (msg_of_req rq))) (req_key rq)). apply F. exact H.
+  - intro H. left. pose proof (side_keys_manual wc w e INBOUND_KEY k Hm Hk) as F. unfold side in H.
+    destruct (side_k wc w e INBOUND_KEY). apply F. exact H.
+Qed.
+
+Lemma crun_keys_manual : forall wc us w k,
+  wc_auto wc = false -> k <> [] -> has_node_key (w_rt (fst (crun wc w us))) k ->
+  has_node_key (w_rt w) k \/ exists p, In (UAddKnownPeer p true) us /\ k = pkey wc p.
+Proof.
+  intros wc us. induction us as [| u t IH]; intros w k Hm Hk H; [left; exact H |].
+  rewrite crun_cons in H. cbn [fst] in H.
+  destruct (IH _ k Hm Hk H) as [H1 | (p & H1 & H2)].
+  - destruct (cstep_keys_manual wc w u k Hm Hk H1) as [H2 | (p & -> & H2)]; [left; exact H2 |].
+    right. exists p. split; [left; reflexivity | exact H2].
+  - right. exists p. split; [right; exact H1 | exact H2].
+Qed.
+
+Lemma concat_repeat_nil : forall A n, concat (repeat (@nil A) n) = [].
+Proof. intros A n. induction n as [| n IH]; [reflexivity | exact IH]. Qed.
+
+Lemma manual_table : forall wc m L us n,
+  wc_auto wc = false ->
+  In n (concat (w_rt (fst (crun wc (w0 wc m L) us)))) -> R.n_key n <> [] ->
+  exists p, In (UAddKnownPeer p true) us /\ R.n_key n = pkey wc p.
+Proof.
+  intros wc m L us n Hm Hin Hr.
+  destruct (crun_keys_manual wc us (w0 wc m L) (R.n_key n) Hm Hr) as [(n' & H & _) | H].
+  - exists n. split; [exact Hin | reflexivity].
+  - exfalso. cbn [w0 w_rt] in H. unfold R.empty_table in H. rewrite concat_repeat_nil in H. destruct H.
+  - exact H.
+Qed.
+
+(* IncomingRecordValidationMode::Manual: no event of the loop writes the store; only the user's
+   store_record / put_record do *)
+Lemma side_k_store_manual : forall wc w e ik, wc_vauto wc = false -> snd (side_k wc w e ik) = w_store w.
+Proof.
+  intros wc w e ik Hm. unfold side_k. destruct e; cbn [snd]; try reflexivity.
+  - destruct (aget p (conn (w_st w))); reflexivity.
+  - destruct r as [| | | m |]; try reflexivity.
+    destruct (find_fut id (futs (w_st w))) as [f |]; [| reflexivity].
+    destruct (res_ok (f_kind f) (RRead m)); [| reflexivity].
+    destruct (f_q f); [reflexivity |].
+    destruct (trunc_msg (wc_g wc) m); try reflexivity. rewrite Hm. reflexivity.
+Qed.
+
+Lemma manual_validation : forall wc w u,
+  wc_vauto wc = false ->
+  (exists e, u = UEv e) \/ (exists id rk, u = UInReq id (IPutValue rk)) ->
+  w_store (fst (fst (cstep wc w u))) = w_store w.
+Proof.
+  intros wc w u Hm [[e ->] | (id & rk & ->)]; rewrite cstep_store; cbn [elab].
+  - pose proof (side_k_store_manual wc w e INBOUND_KEY Hm) as Hs. unfold side.
+    destruct (side_k wc w e INBOUND_KEY) as [t' s']. exact Hs.
+  - pose proof (side_k_store_manual wc w (EFut id (RRead (msg_of_req (IPutValue rk)))) (req_key (IPutValue rk)) Hm) as Hs.
+    destruct (side_k wc w (EFut id (RRead (msg_of_req (IPutValue rk)))) (req_key (IPutValue rk))) as [t' s']. exact Hs.
+Qed.
+
+(* in the Automatic mode an inbound PUT_VALUE is in the store when its read future has completed *)
+Lemma auto_validation : forall wc w id rk,
+  wc_vauto wc = true -> inbound_read (w_st w) id = true ->
+  w_store (fst (fst (cstep wc w (UInReq id (IPutValue rk))))) =
+  S.put (wc_scfg wc) (w_store w) (local_record wc rk).
+Proof.
+  intros wc w id rk Hm Hf. rewrite cstep_store. cbn [elab msg_of_req req_key]. unfold side_k.
+  unfold inbound_read in Hf. destruct (find_fut id (futs (w_st w))) as [f |]; [| discriminate].
+  destruct (f_kind f) eqn:Ek; try discriminate. destruct (f_q f) eqn:Eq; [discriminate |].
+  cbn [res_ok trunc_msg]. rewrite Hm. reflexivity.
+Qed.
 
 (* ------------------------------------------------------------------ the seeds of a lookup *)
 
@@ -457,13 +697,16 @@ Definition ucmd_ok (g : gcfg) (u : uev) : Prop :=
 Lemma elab_cmd_ok : forall wc w u,
   keys_ok wc -> TInv wc (w_rt w) -> ucmd_ok (wc_g wc) u -> cmd_ok (wc_g wc) (fst (fst (elab wc w u))).
 Proof.
-  intros wc w u Hk HI Hu. destruct u as [q c target | q qr rk given | rk | p a | e].
+  intros wc w u Hk HI Hu. destruct u as [q c target | q qr rk given | rk | p a | rk | q rk target | id rq | e].
   - destruct (elab_cmd wc w q c target) as [cmd E]. rewrite E. cbn [cmd_ok].
     apply seeds_not_local; assumption.
   - destruct (elab_put_to_peers wc w q qr rk given) as (ps & E & Eps). rewrite E. cbn [cmd_ok]. subst ps.
     apply rt_filter_nodup; assumption.
   - exact I.
   - exact I.
+  - exact I.
+  - cbn [elab]. destruct (fire_due w rk); cbn [fst cmd_ok]; [apply seeds_not_local; assumption | exact I].
+  - cbn [elab]. destruct (side_k wc w (EFut id (RRead (msg_of_req rq))) (req_key rq)). exact I.
   - cbn [elab]. destruct (side wc w e). exact Hu.
 Qed.
 
@@ -538,26 +781,42 @@ Proof.
 Qed.
 
 (* what a composed step does to the store: nothing, or one put of a record of this node *)
+Lemma side_k_store : forall wc w e ik,
+  snd (side_k wc w e ik) = w_store w \/
+  (snd (side_k wc w e ik) = S.put (wc_scfg wc) (w_store w) (local_record wc ik) /\
+   exists id, e = EFut id (RRead MPutValue)).
+Proof.
+  intros wc w e ik. unfold side_k. destruct e; cbn [snd]; try (left; reflexivity).
+  - destruct (aget p (conn (w_st w))); left; reflexivity.
+  - destruct r as [| | | m |]; try (left; reflexivity).
+    destruct (find_fut id (futs (w_st w))) as [f |]; [| left; reflexivity].
+    destruct (res_ok (f_kind f) (RRead m)); [| left; reflexivity].
+    destruct (f_q f); [left; reflexivity |].
+    destruct m; cbn [trunc_msg]; try (left; reflexivity).
+    destruct (wc_vauto wc); [right; split; [reflexivity | eauto] | left; reflexivity].
+Qed.
+
 Lemma elab_store : forall wc w u, SI wc (w_store w) -> 1 <= wc_ttl wc ->
   snd (elab wc w u) = w_store w \/
   exists rk, snd (elab wc w u) = S.put (wc_scfg wc) (w_store w) (local_record wc rk).
 Proof.
-  intros wc w u HS Ht. destruct u as [q c target | q qr rk given | rk | p a | e]; cbn [elab].
+  intros wc w u HS Ht. destruct u as [q c target | q qr rk given | rk | p a | rk | q rk target | id rq | e]; cbn [elab].
   - destruct c; cbn [snd]; eauto. rewrite (get_same wc _ rk HS Ht). left. reflexivity.
   - destruct (rt_filter wc (w_rt w) given). left. reflexivity.
   - right. exists rk. reflexivity.
   - left. reflexivity.
-  - assert (Hs : snd (side wc w e) = w_store w \/
-                 exists rk, snd (side wc w e) = S.put (wc_scfg wc) (w_store w) (local_record wc rk)).
-    { unfold side. destruct e; cbn [snd]; try (left; reflexivity).
-      - destruct (aget p (conn (w_st w))); left; reflexivity.
-      - destruct r as [| | | m |]; try (left; reflexivity).
-        destruct (find_fut id (futs (w_st w))) as [f |]; [| left; reflexivity].
-        destruct (res_ok (f_kind f) (RRead m)); [| left; reflexivity].
-        destruct (f_q f); [left; reflexivity |].
-        destruct (trunc_msg (wc_g wc) m); try (left; reflexivity).
-        right. exists INBOUND_KEY. reflexivity. }
-    destruct (side wc w e) as [t' s']. exact Hs.
+  - left. reflexivity.
+  - destruct (fire_due w rk); left; reflexivity.
+  - pose proof (side_k_store wc w (EFut id (RRead (msg_of_req rq))) (req_key rq)) as Hs.
+    destruct (side_k wc w (EFut id (RRead (msg_of_req rq))) (req_key rq)) as [t' s']. cbn [snd] in *.
+    destruct Hs as [Hs | [Hs (id' & Hm)]].
+    + subst s'. destruct rq; try (left; reflexivity).
+      destruct (inbound_read (w_st w) id); [| left; reflexivity].
+      rewrite (get_same wc _ rk HS Ht). left. reflexivity.
+    + destruct rq; cbn [msg_of_req] in Hm; try discriminate Hm. right. exists (req_key (IPutValue rk)). exact Hs.
+  - pose proof (side_k_store wc w e INBOUND_KEY) as Hs. unfold side.
+    destruct (side_k wc w e INBOUND_KEY) as [t' s']. cbn [snd] in *.
+    destruct Hs as [Hs | [Hs _]]; [left; exact Hs | right; exists INBOUND_KEY; exact Hs].
 Qed.
 
 Lemma cstep_SI : forall wc w u, SI wc (w_store w) -> 1 <= wc_ttl wc -> SI wc (w_store (fst (fst (cstep wc w u)))).
@@ -616,21 +875,35 @@ Lemma get_record_step : forall wc w q qr rk target,
   fst (cstep wc w (UCmd q (UCGet qr rk) target)) =
   match qr, hit with
   | QOne, true => (w, [OPartial q (g_local g) LOCAL_REC; OGetRecSuccess q])
-  | _, _ => (mkW lookup (w_rt w) (w_store w), if hit then [OPartial q (g_local g) LOCAL_REC] else [])
+  | _, _ => (mkW lookup (w_rt w) (w_store w) (w_prov w) (w_timers w),
+             if hit then [OPartial q (g_local g) LOCAL_REC] else [])
   end.
 Proof.
-  intros wc w q qr rk target HS Ht g hit lookup. unfold cstep. cbn [elab].
+  intros wc w q qr rk target HS Ht g hit lookup. unfold cstep. cbn [elab prov_side fst snd].
   rewrite (get_same wc _ rk HS Ht). subst hit lookup.
   destruct (S.find_rec rk (S.recs (w_store w))) as [r |]; cbn [step on_cmd];
     destruct qr; cbn [fst snd needed_of]; try reflexivity.
   destruct w; reflexivity.
 Qed.
 
+(* the event puts a record with key rk into the store: store_record, the local half of put_record, or —
+   with automatic validation — a PUT_VALUE of a remote peer read from an inbound substream *)
+Definition stores (wc : wcfg) (w : world) (u : uev) (rk : N) : Prop :=
+  u = UStoreRecord rk \/ (exists q0 qr0 t0, u = UCmd q0 (UCPut qr0 rk) t0) \/
+  (wc_vauto wc = true /\ exists id, u = UInReq id (IPutValue rk) /\ inbound_read (w_st w) id = true).
+
+Lemma stores_put : forall wc w u rk, stores wc w u rk ->
+  snd (elab wc w u) = S.put (wc_scfg wc) (w_store w) (local_record wc rk).
+Proof.
+  intros wc w u rk [-> | [(q0 & qr0 & t0 & ->) | (Hm & id & -> & Hr)]]; try reflexivity.
+  rewrite <- cstep_store. apply auto_validation; assumption.
+Qed.
+
 (* a record this node stored is found by every later GetRecord(Quorum::One) without the network *)
 Lemma put_then_get : forall wc m L us1 u us2 q rk target,
   1 <= wc_ttl wc -> REC_LEN < S.max_size (wc_scfg wc) ->
   N.of_nat (length (us1 ++ u :: us2)) <= S.max_records (wc_scfg wc) ->
-  (u = UStoreRecord rk \/ exists q0 qr0 t0, u = UCmd q0 (UCPut qr0 rk) t0) ->
+  stores wc (fst (crun wc (w0 wc m L) us1)) u rk ->
   let w := fst (crun wc (w0 wc m L) (us1 ++ u :: us2)) in
   fst (cstep wc w (UCmd q (UCGet QOne rk) target)) =
   (w, [OPartial q (g_local (wc_g wc)) LOCAL_REC; OGetRecSuccess q]).
@@ -641,8 +914,7 @@ Proof.
   set (w1 := fst (crun wc (w0 wc m L) us1)) in *.
   assert (St : stored (w_store (fst (fst (cstep wc w1 u)))) rk).
   { rewrite cstep_store.
-    assert (E : snd (elab wc w1 u) = S.put (wc_scfg wc) (w_store w1) (local_record wc rk)).
-    { destruct Hu as [-> | (q0 & qr0 & t0 & ->)]; reflexivity. }
+    assert (E : snd (elab wc w1 u) = S.put (wc_scfg wc) (w_store w1) (local_record wc rk)) by (apply stores_put; exact Hu).
     rewrite E. change rk with (S.r_key (local_record wc rk)) at 2. apply put_stored; [exact Hsz |].
     rewrite app_length in Hn. cbn [length] in *. cbn in L1. lia. }
   assert (Ew : w = fst (crun wc (fst (fst (cstep wc w1 u))) us2)).
@@ -674,19 +946,22 @@ Proof. intros us q x p Ha. cbn zeta. rewrite lift_state. apply no_wait_for_nothi
 
 Lemma c_one_terminal : forall us q,
   ufresh [] us ->
-  (terminals q (snd (crun wc (w0 wc m L) us)) + (if live q (w_st (W us)) then 1 else 0) = ustarted q us)%nat /\
-  (ustarted q us <= 1)%nat.
+  (terminals q (snd (crun wc (w0 wc m L) us)) + (if live q (w_st (W us)) then 1 else 0) =
+   cstarted wc (w0 wc m L) q us)%nat /\
+  (cstarted wc (w0 wc m L) q us <= ustarted q us)%nat /\ (cstarted wc (w0 wc m L) q us <= 1)%nat.
 Proof.
-  intros us q Hf. rewrite lift_state, lift_outs, <- (elabs_started wc q us (w0 wc m L)).
-  apply one_terminal. apply elabs_fresh. exact Hf.
+  intros us q Hf. rewrite lift_state, lift_outs. unfold cstarted.
+  destruct (one_terminal g m (elabs wc (w0 wc m L) us) q (elabs_fresh wc us _ [] Hf)) as [H1 H2].
+  split; [exact H1 |]. split; [apply elabs_started | exact H2].
 Qed.
 
 Lemma c_terminates : forall us q,
   1 <= g_alpha g -> ufresh [] us ->
   idle (w_st (W us)) -> quiescent (w_st (W us)) = true ->
-  terminals q (snd (crun wc (w0 wc m L) us)) = ustarted q us /\ (ustarted q us <= 1)%nat.
+  terminals q (snd (crun wc (w0 wc m L) us)) = cstarted wc (w0 wc m L) q us /\
+  (cstarted wc (w0 wc m L) q us <= 1)%nat.
 Proof.
-  intros us q Ha Hf. rewrite lift_state, lift_outs, <- (elabs_started wc q us (w0 wc m L)).
+  intros us q Ha Hf. rewrite lift_state, lift_outs. unfold cstarted.
   apply all_reported; [exact Ha | apply elabs_fresh; exact Hf].
 Qed.
 
@@ -724,10 +999,327 @@ Proof.
 Qed.
 End Lift.
 
+(* ------------------------------------------------------------------ fair termination of composed histories *)
+
+Lemma elabs_app : forall wc a b w,
+  elabs wc w (a ++ b) = elabs wc w a ++ elabs wc (fst (crun wc w a)) b.
+Proof.
+  intros wc a. induction a as [| u t IH]; intros b w; [reflexivity |].
+  cbn [app elabs]. rewrite crun_cons. cbn [fst]. rewrite IH. reflexivity.
+Qed.
+
+Definition uev_in_U (U : list N) (u : uev) : Prop :=
+  match u with
+  | UPutToPeers _ _ _ given => forall p, In p given -> In p U
+  | UEv e => ev_in_U U e
+  | _ => True
+  end.
+
+Lemma peer_of_in : forall (keys : list (N * key)) k, In (peer_of keys k) (UNKNOWN :: map fst keys).
+Proof.
+  intros keys k. induction keys as [| [p0 k0] t IH]; cbn [peer_of]; [left; reflexivity |].
+  destruct (R.key_eqb k0 k); [right; left; reflexivity |].
+  destruct IH as [H | H]; [left; exact H | right; right; exact H].
+Qed.
+
+Lemma seeds_in_U : forall wc t target U,
+  (forall p, In p (UNKNOWN :: map fst (wc_keys wc)) -> In p U) ->
+  forall p, In p (seeds_of wc t target) -> In p U.
+Proof.
+  intros wc t target U HU p Hp. unfold seeds_of in Hp. apply in_map_iff in Hp. destruct Hp as (n & <- & _).
+  apply HU. apply peer_of_in.
+Qed.
+
+Lemma elab_in_U : forall wc w u U,
+  keys_ok wc -> (forall p, In p (UNKNOWN :: map fst (wc_keys wc)) -> In p U) ->
+  uev_in_U U u -> ev_in_U U (fst (fst (elab wc w u))).
+Proof.
+  intros wc w u U Hk HU Hu. destruct u as [q c target | q qr rk given | rk | p a | rk | q rk target | id rq | e].
+  - destruct (elab_cmd wc w q c target) as [cmd E]. rewrite E. cbn [ev_in_U]. apply seeds_in_U. exact HU.
+  - destruct (elab_put_to_peers wc w q qr rk given) as (ps & E & Eps). rewrite E. cbn [ev_in_U]. subst ps.
+    intros p Hp. apply Hu. apply (rt_filter_named wc given (w_rt w) p Hk Hp).
+  - exact I.
+  - exact I.
+  - exact I.
+  - cbn [elab]. destruct (fire_due w rk); cbn [fst ev_in_U]; [apply seeds_in_U; exact HU | exact I].
+  - cbn [elab]. destruct (side_k wc w (EFut id (RRead (msg_of_req rq))) (req_key rq)). cbn [fst ev_in_U].
+    destruct rq; cbn [msg_of_req msg_in]; try exact I; intros ? [].
+  - cbn [elab]. destruct (side wc w e). exact Hu.
+Qed.
+
+Lemma elabs_in_U : forall wc us w U,
+  keys_ok wc -> (forall p, In p (UNKNOWN :: map fst (wc_keys wc)) -> In p U) ->
+  Forall (uev_in_U U) us -> evs_in_U U (elabs wc w us).
+Proof.
+  intros wc us. induction us as [| u t IH]; intros w U Hk HU HF; [exact I |].
+  inversion HF as [| ? ? Hu Ht]. subst. cbn [elabs evs_in_U]. split.
+  - apply elab_in_U; assumption.
+  - apply IH; assumption.
+Qed.
+
+Lemma c_fair_terminates : forall wc m U us0 us1 q,
+  keys_ok wc -> 1 <= g_alpha (wc_g wc) ->
+  (forall p, In p (UNKNOWN :: map fst (wc_keys wc)) -> In p U) ->
+  ufresh [] (us0 ++ us1) -> Forall (ucmd_ok (wc_g wc)) us0 -> Forall (uev_in_U U) (us0 ++ us1) ->
+  let W0 := w0 wc m (length (lkey wc)) in
+  let w1 := fst (crun wc W0 us0) in
+  let es1 := elabs wc w1 us1 in
+  fair_run (wc_g wc) (w_st w1) es1 ->
+  (length (work es1) <= budget (length U) (wc_g wc) (elabs wc W0 us0))%nat /\
+  (stuck (w_st (fst (crun wc w1 us1))) ->
+   terminals q (snd (crun wc W0 (us0 ++ us1))) = cstarted wc W0 q (us0 ++ us1) /\
+   (cstarted wc W0 q (us0 ++ us1) <= 1)%nat).
+Proof.
+  intros wc m U us0 us1 q Hk Ha HU Hf Hc Hin W0 w1 es1 Hfair.
+  apply Forall_app in Hin. destruct Hin as [Hin0 Hin1].
+  pose proof (elabs_fresh wc (us0 ++ us1) W0 [] Hf) as Hfr. rewrite elabs_app in Hfr. fold w1 es1 in Hfr.
+  assert (S0 : w_st w1 = fst (run (wc_g wc) (st0 m) (elabs wc W0 us0))) by apply (compose_refines wc us0 W0).
+  rewrite S0 in Hfair.
+  destruct (fair_terminates U (wc_g wc) m (elabs wc W0 us0) es1 q Ha Hfr
+              (elabs_cmds_ok wc us0 W0 Hk (RP.empty_inv _ _) Hc)
+              (elabs_in_U wc us0 W0 U Hk HU Hin0) (elabs_in_U wc us1 w1 U Hk HU Hin1) Hfair) as [B T].
+  split; [exact B |]. intro Hs.
+  destruct (compose_refines wc us1 w1) as [R1 _]. fold es1 in R1. rewrite S0 in R1. rewrite R1 in Hs.
+  destruct (compose_refines wc (us0 ++ us1) W0) as [_ R2]. rewrite elabs_app in R2. fold w1 es1 in R2.
+  unfold cstarted. rewrite elabs_app. fold w1 es1. rewrite R2. apply T. exact Hs.
+Qed.
+
+(* ------------------------------------------------------------------ provider refresh: the store's timers *)
+
+Lemma cstep_prov : forall wc w u,
+  w_prov (fst (fst (cstep wc w u))) = fst (prov_side w u) /\ w_timers (fst (fst (cstep wc w u))) = snd (prov_side w u).
+Proof.
+  intros. unfold cstep. destruct (elab wc w u) as [[e t'] s'].
+  destruct (step (wc_g wc) (w_st w) e) as [[st' o] ok]. split; reflexivity.
+Qed.
+
+(* the quorum of the last start_providing(rk) that no stop_providing(rk) has followed *)
+Fixpoint last_prov (rk : N) (acc : option quorum) (us : list uev) : option quorum :=
+  match us with
+  | [] => acc
+  | UCmd _ (UCProv qr rk') _ :: t => last_prov rk (if rk' =? rk then Some qr else acc) t
+  | UStopProviding rk' :: t => last_prov rk (if rk' =? rk then None else acc) t
+  | _ :: t => last_prov rk acc t
+  end.
+
+Lemma prov_side_get : forall w u rk,
+  aget rk (fst (prov_side w u)) = last_prov rk (aget rk (w_prov w)) [u].
+Proof.
+  intros w u rk. destruct u as [q c target | q qr rk0 given | rk0 | p a | rk0 | q rk0 target | id rq | e];
+    cbn [prov_side last_prov fst]; try reflexivity.
+  - destruct c; cbn [fst]; try reflexivity. destruct (N.eqb_spec rk0 rk) as [-> | Hne].
+    + apply aget_aset_same.
+    + apply aget_aset_other. congruence.
+  - destruct (N.eqb_spec rk0 rk) as [-> | Hne]; [apply aget_adel_same | apply aget_adel_other; congruence].
+  - destruct (nmem rk0 (w_timers w)); [destruct (aget rk0 (w_prov w)) |]; reflexivity.
+Qed.
+
+Lemma last_prov_cons : forall rk acc u t, last_prov rk acc (u :: t) = last_prov rk (last_prov rk acc [u]) t.
+Proof.
+  intros rk acc u t. destruct u as [q c target | | | | | | |]; try reflexivity. destruct c; reflexivity.
+Qed.
+
+Lemma prov_track : forall wc us w rk,
+  aget rk (w_prov (fst (crun wc w us))) = last_prov rk (aget rk (w_prov w)) us.
+Proof.
+  intros wc us. induction us as [| u t IH]; intros w rk; [reflexivity |].
+  rewrite crun_cons. cbn [fst]. rewrite IH. destruct (cstep_prov wc w u) as [E _]. rewrite E, prov_side_get.
+  symmetry. apply last_prov_cons.
+Qed.
+
+Lemma rem1_other : forall x y l, x <> y -> In y l -> In y (rem1 x l).
+Proof.
+  intros x y l Hne. induction l as [| h t IH]; [intros [] |]. cbn [rem1]. intros [H | H].
+  - subst h. destruct (N.eqb_spec y x); [congruence | left; reflexivity].
+  - destruct (h =? x); [exact H | right; apply IH; exact H].
+Qed.
+
+(* a provided key always has a refresh timer armed: the refresh will come *)
+Definition PT (w : world) : Prop := forall rk qr, aget rk (w_prov w) = Some qr -> In rk (w_timers w).
+
+Lemma cstep_PT : forall wc w u, PT w -> PT (fst (fst (cstep wc w u))).
+Proof.
+  intros wc w u H rk qr. destruct (cstep_prov wc w u) as [E1 E2]. rewrite E1, E2.
+  destruct u as [q c target | q qr0 rk0 given | rk0 | p a | rk0 | q rk0 target | id rq | e];
+    cbn [prov_side fst snd]; try apply H.
+  - destruct c; cbn [fst snd]; try apply H. destruct (N.eqb_spec rk0 rk) as [-> | Hne].
+    + intros _. apply in_or_app. right. left. reflexivity.
+    + rewrite aget_aset_other by congruence. intro A. apply in_or_app. left. eapply H. exact A.
+  - destruct (N.eqb_spec rk0 rk) as [-> | Hne]; [rewrite aget_adel_same; discriminate |].
+    rewrite aget_adel_other by congruence. apply H.
+  - destruct (nmem rk0 (w_timers w)) eqn:Et; [| apply H].
+    destruct (aget rk0 (w_prov w)) eqn:Ep; cbn [fst snd]; intro A.
+    + destruct (N.eq_dec rk0 rk) as [-> | Hne]; apply in_or_app; [right; left; reflexivity |].
+      left. apply rem1_other; [exact Hne | eapply H; exact A].
+    + destruct (N.eq_dec rk0 rk) as [-> | Hne]; [congruence |]. apply rem1_other; [exact Hne | eapply H; exact A].
+Qed.
+
+Lemma crun_PT : forall wc us w, PT w -> PT (fst (crun wc w us)).
+Proof.
+  intros wc us. induction us as [| u t IH]; intros w H; [exact H |].
+  rewrite crun_cons. cbn [fst]. apply IH. apply cstep_PT. exact H.
+Qed.
+
+(* a timer that fires starts a refresh exactly when the key is still provided, with the quorum of the
+   last start_providing; then it is an ADD_PROVIDER operation like a user's, seeded from the table *)
+Lemma refresh_due : forall wc m L us q rk target,
+  let w := fst (crun wc (w0 wc m L) us) in
+  In rk (w_timers w) ->
+  fst (fst (elab wc w (UFire q rk target))) =
+  match last_prov rk None us with
+  | Some qr => ECmd q (CRefresh qr) (dists_of wc target) (seeds_of wc (w_rt w) target)
+  | None => ENop
+  end /\
+  (last_prov rk None us <> None -> In rk (w_timers (fst (fst (cstep wc w (UFire q rk target)))))).
+Proof.
+  intros wc m L us q rk target w Hin.
+  assert (Et : nmem rk (w_timers w) = true) by (apply nmem_In; exact Hin).
+  pose proof (prov_track wc us (w0 wc m L) rk) as P. fold w in P. change (aget rk (w_prov (w0 wc m L))) with (@None quorum) in P.
+  split.
+  - cbn [elab]. unfold fire_due. rewrite Et, P. destruct (last_prov rk None us); reflexivity.
+  - intro Hp. destruct (cstep_prov wc w (UFire q rk target)) as [_ E2]. rewrite E2. cbn [prov_side]. rewrite Et, P.
+    destruct (last_prov rk None us); [| congruence]. cbn [snd]. apply in_or_app. right. left. reflexivity.
+Qed.
+
+Lemma provided_has_timer : forall wc m L us rk,
+  last_prov rk None us <> None -> In rk (w_timers (fst (crun wc (w0 wc m L) us))).
+Proof.
+  intros wc m L us rk H. pose proof (prov_track wc us (w0 wc m L) rk) as P.
+  change (aget rk (w_prov (w0 wc m L))) with (@None quorum) in P.
+  destruct (last_prov rk None us) as [qr |] eqn:E; [| congruence].
+  eapply (crun_PT wc us (w0 wc m L)); [intros ? ? A; discriminate A | exact P].
+Qed.
+
+(* ------------------------------------------------------------------ requests of remote peers *)
+
+(* the answer to an inbound FIND_NODE / GET_VALUE / GET_PROVIDERS: the closer peers are
+   RoutingTable::closest of the current table for the key asked for — the very function that seeds the
+   node's own lookups, so never the local peer, at most k — and the record flag of GET_VALUE is the
+   store's answer *)
+Lemma inbound_reply : forall wc w id rq b ps,
+  keys_ok wc -> TInv wc (w_rt w) -> SI wc (w_store w) -> 1 <= wc_ttl wc ->
+  reply_of wc w (UInReq id rq) = Some (b, ps) ->
+  exists target,
+    (rq = IFindNode target \/ (exists rk, rq = IGetValue rk target) \/ rq = IGetProviders target) /\
+    ps = seeds_of wc (w_rt w) target /\ ~ In (g_local (wc_g wc)) ps /\
+    (length ps <= N.to_nat (g_k (wc_g wc)))%nat /\
+    (b = true <-> exists rk, rq = IGetValue rk target /\ stored (w_store w) rk).
+Proof.
+  intros wc w id rq b ps Hk HI HS Ht H. cbn [reply_of] in H.
+  destruct (inbound_read (w_st w) id); [| discriminate].
+  assert (Len : forall target, (length (seeds_of wc (w_rt w) target) <= N.to_nat (g_k (wc_g wc)))%nat).
+  { intro target. unfold seeds_of, R.closest. rewrite map_length. apply firstn_le_length. }
+  destruct rq as [target | rk | rk target | target | v]; try discriminate H; inversion H; subst; exists target.
+  - split; [left; reflexivity |]. split; [reflexivity |]. split; [apply seeds_not_local; assumption |].
+    split; [apply Len |]. split; [discriminate | intros (rk & E & _); discriminate E].
+  - split; [right; left; eauto |]. split; [reflexivity |]. split; [apply seeds_not_local; assumption |].
+    split; [apply Len |]. rewrite (get_same wc _ rk HS Ht). cbn [snd]. unfold stored. split.
+    + intro E. exists rk. split; [reflexivity |]. destruct (S.find_rec rk (S.recs (w_store w))); [discriminate | discriminate E].
+    + intros (rk' & E & St). inversion E. subst rk'. destruct (S.find_rec rk (S.recs (w_store w))); [reflexivity | congruence].
+  - split; [right; right; reflexivity |]. split; [reflexivity |]. split; [apply seeds_not_local; assumption |].
+    split; [apply Len |]. split; [discriminate | intros (rk & E & _); discriminate E].
+Qed.
+
+(* a record this node stored is served to every remote GET_VALUE that comes later *)
+Lemma stored_after_put : forall wc m L us1 u us2 rk,
+  1 <= wc_ttl wc -> REC_LEN < S.max_size (wc_scfg wc) ->
+  N.of_nat (length (us1 ++ u :: us2)) <= S.max_records (wc_scfg wc) ->
+  stores wc (fst (crun wc (w0 wc m L) us1)) u rk ->
+  let w := fst (crun wc (w0 wc m L) (us1 ++ u :: us2)) in
+  SI wc (w_store w) /\ stored (w_store w) rk.
+Proof.
+  intros wc m L us1 u us2 rk Ht Hsz Hn Hu w.
+  assert (S0 : SI wc (w_store (w0 wc m L))) by constructor.
+  destruct (crun_store wc us1 (w0 wc m L) rk S0 Ht) as (S1 & _ & L1).
+  set (w1 := fst (crun wc (w0 wc m L) us1)) in *.
+  assert (St : stored (w_store (fst (fst (cstep wc w1 u)))) rk).
+  { rewrite cstep_store.
+    assert (E : snd (elab wc w1 u) = S.put (wc_scfg wc) (w_store w1) (local_record wc rk)) by (apply stores_put; exact Hu).
+    rewrite E. change rk with (S.r_key (local_record wc rk)) at 2. apply put_stored; [exact Hsz |].
+    rewrite app_length in Hn. cbn [length] in *. cbn in L1. lia. }
+  assert (Ew : w = fst (crun wc (fst (fst (cstep wc w1 u))) us2)).
+  { subst w w1. rewrite crun_app, crun_cons. reflexivity. }
+  destruct (crun_store wc us2 (fst (fst (cstep wc w1 u))) rk (cstep_SI wc w1 u S1 Ht) Ht) as (S2 & K2 & _).
+  rewrite <- Ew in S2, K2. split; [exact S2 | apply K2; exact St].
+Qed.
+
+Lemma serve_after_put : forall wc m L us1 u us2 rk id target,
+  1 <= wc_ttl wc -> REC_LEN < S.max_size (wc_scfg wc) ->
+  N.of_nat (length (us1 ++ u :: us2)) <= S.max_records (wc_scfg wc) ->
+  stores wc (fst (crun wc (w0 wc m L) us1)) u rk ->
+  let w := fst (crun wc (w0 wc m L) (us1 ++ u :: us2)) in
+  inbound_read (w_st w) id = true ->
+  reply_of wc w (UInReq id (IGetValue rk target)) = Some (true, seeds_of wc (w_rt w) target).
+Proof.
+  intros wc m L us1 u us2 rk id target Ht Hsz Hn Hu w Hr.
+  destruct (stored_after_put wc m L us1 u us2 rk Ht Hsz Hn Hu) as [HS St]. fold w in HS, St.
+  cbn [reply_of]. rewrite Hr, (get_same wc _ rk HS Ht). cbn [snd]. unfold stored in St.
+  destruct (S.find_rec rk (S.recs (w_store w))); [reflexivity | congruence].
+Qed.
+
+(* ------------------------------------------------------------------ inbound traffic and the user's operations *)
+
+(* events of the inbound side: a remote peer opens a substream; a future that serves a remote request
+   (no query id) reads a message or finishes its reply *)
+Definition inbound_ev (s : st) (e : ev) : Prop :=
+  match e with
+  | EInbound _ _ => True
+  | EFut id r => exists f, find_fut id (futs s) = Some f /\ f_q f = None /\
+                           (r = RSendOk \/ r = RAssume \/ exists m, r = RRead m)
+  | _ => False
+  end.
+
+Lemma del_fut_keeps : forall id l f0 f,
+  find_fut id l = Some f0 -> In f l -> f <> f0 -> In f (del_fut id l).
+Proof.
+  intros id l. induction l as [| h t IH]; intros f0 f Hf Hin Hne; [destruct Hin |].
+  cbn [find_fut del_fut] in *. destruct (f_id h =? id).
+  - inversion Hf. subst h. destruct Hin as [H | H]; [congruence | exact H].
+  - destruct Hin as [H | H]; [left; exact H | right; eapply IH; eassumption].
+Qed.
+
+(* they neither start, end nor touch an operation of the user: the engine, pending_dials,
+   pending_substreams and every pending action stay as they are, no terminal event and no send phase is
+   produced, every future working for a query stays in flight *)
+Lemma inbound_isolated : forall g s e,
+  inbound_ev s e ->
+  let s' := fst (fst (step g s e)) in
+  let o := snd (fst (step g s e)) in
+  eng s' = eng s /\ pdial s' = pdial s /\ psub s' = psub s /\
+  (forall p acts, aget p (peers s) = Some acts -> aget p (peers s') = Some acts) /\
+  (forall x, In x o -> x = OIncomingRecord \/ x = OIncomingProvider) /\
+  (forall f, In f (futs s) -> f_q f <> None -> In f (futs s')).
+Proof.
+  intros g s e He. destruct e; cbn [inbound_ev] in He; try contradiction; cbn [step fst snd].
+  - (* inbound substream *)
+    unfold on_inbound_substream.
+    assert (P : forall p0 acts, aget p0 (peers s) = Some acts ->
+                aget p0 (peers (match aget p (peers s) with Some _ => s | None => w_peers s (aset p [] (peers s)) end)) = Some acts).
+    { intros p0 acts A. destruct (aget p (peers s)) eqn:Ep; [exact A |]. cbn [peers w_peers].
+      destruct (N.eq_dec p p0) as [-> | Hne]; [congruence | rewrite aget_aset_other by congruence; exact A]. }
+    destruct (aget p (peers s)) eqn:Ep; cbn [add_fut w_futs w_peers eng pdial psub peers futs];
+      (split; [reflexivity |]; split; [reflexivity |]; split; [reflexivity |]; split; [exact P |];
+       split; [intros x [] |]; intros f Hf _; apply in_or_app; left; exact Hf).
+  - (* a future of the inbound side completes *)
+    destruct He as (f & Hf & Hq & Hr). unfold on_future. rewrite Hf.
+    destruct (res_ok (f_kind f) r) eqn:Eok; cbn [fst snd].
+    2: { repeat split; try reflexivity; try tauto. intros x []. }
+    assert (Keep : forall f1, In f1 (futs s) -> f_q f1 <> None -> In f1 (del_fut id (futs s))).
+    { intros f1 H1 H2. eapply del_fut_keeps; [exact Hf | exact H1 |]. intro E. subst f1. contradiction. }
+    destruct Hr as [-> | [-> | [m ->]]]; rewrite Hq; cbn [fst snd].
+    + repeat split; try reflexivity; try tauto. intros x [].
+    + repeat split; try reflexivity; try tauto. intros x [].
+    + unfold on_message.
+      destruct (trunc_msg g m) as [ps | | hk rc ps | v | hk pv ps |]; cbn [fst snd];
+        try destruct hk; try destruct v; cbn [fst snd add_fut w_futs eng pdial psub peers futs];
+        (split; [reflexivity |]; split; [reflexivity |]; split; [reflexivity |]; split; [tauto |]; split;
+         [intros x Hx; cbn [In] in Hx; intuition | intros f1 H1 H2; try (apply in_or_app; left); apply Keep; assumption]).
+Qed.
+
 (* a small world for the non-vacuity example of Properties.v *)
 Definition ex_wc : wcfg :=
   mkWC (mkG 20 3 99 10) [(99, [false; false]); (0, [true; false]); (1, [true; true])] [0; 1] 20
-       (V.C17.Model.mkCfg 8 10 8 8 8 100) 50.
+       (V.C17.Model.mkCfg 8 10 8 8 8 100) 50 true true.
 Lemma ex_wc_ok : keys_ok ex_wc.
 Proof.
   constructor.
@@ -737,4 +1329,32 @@ Proof.
   - cbn [ex_wc wc_keys map fst]. repeat constructor; cbn [In]; intuition discriminate.
   - cbn [ex_wc wc_keys map snd]. repeat constructor; cbn [In]; intuition discriminate.
   - cbn [ex_wc wc_keys map fst In]. unfold UNKNOWN. intuition discriminate.
+Qed.
+
+(* ------------------------------------------------------------------ a connection closes while requests are outstanding *)
+
+Lemma closed_discharges : forall g m es p,
+  1 <= g_alpha g ->
+  let s := fst (run g (st0 m) es) in
+  aget p (conn s) <> None ->
+  let s' := fst (fst (step g s (EClosed p))) in
+  aget p (peers s') = None /\ futs s' = futs s /\ pdial s' = pdial s /\
+  forall q x, aget q (eng s') = Some x -> In p (waiting x) ->
+    owes_dial s' (negb (is_track x)) q p \/ owes_fut s' (negb (is_track x)) q p.
+Proof.
+  intros g m es p Ha s Hc s'.
+  assert (G : GI s) by (apply run_GI; [exact Ha | apply GI_st0]).
+  assert (G' : GI s') by (apply step_GI; assumption).
+  assert (E : s' = disconnect_peer (w_conn s (adel p (conn s))) p None).
+  { subst s'. cbn [step]. destruct (aget p (conn s)); [reflexivity | congruence]. }
+  destruct G as [Hl Hcv Hf].
+  assert (Hl0 : lookups_live (w_conn s (adel p (conn s)))) by exact Hl.
+  assert (Hc0 : covered (w_conn s (adel p (conn s))) []) by exact Hcv.
+  destruct (disconnect_spec (w_conn s (adel p (conn s))) p None [] Hl0 Hc0) as (_ & _ & D1 & _ & _ & D2 & D3 & _).
+  { intros z []. }
+  rewrite <- E in D1, D2, D3.
+  split; [exact D1 |]. split; [exact D3 |]. split; [exact D2 |].
+  intros q x A W. destruct G' as [_ Hcv' _]. destruct (Hcv' q x p A W) as [O | []].
+  destruct O as [O | [O | O]]; [left; exact O | | right; exact O].
+  destruct O as (acts & sid & a & K & _). rewrite D1 in K. discriminate.
 Qed.
